@@ -200,6 +200,47 @@ def case_special(case, wctx):
     return res
 
 
+def case_interrupt(case, wctx):
+    """a KeyboardInterrupt (not an Exception subclass) delivered at a statement of the execution path, then a
+    plain resubmission into the same cache root: it must re-execute and return the real output, never an
+    empty 'successful' result left behind by the interrupted run (also C12/C13)"""
+    from pydra.engine.submitter import Submitter
+    cwd0 = os.getcwd()
+    cache = str(wctx.fresh_dir("int"))
+    rec = run_once("ok", str(wctx.fresh_dir("rec")), fp={"mode": "record"})
+    tr = rec["trace"] or []
+    sites = [(i, q, rel, calls) for i, (q, rel, kind, calls) in enumerate(tr, start=1)
+             if q == "Job.run" and any(c.endswith(x) for c in calls for x in case["at"])]
+    if not sites:
+        return {"verdict": "inconclusive", "case": case, "why": "interrupt site not on the recorded path"}
+    i, q, rel, calls = sites[0]
+    r1 = run_once("ok", cache, fp={"mode": "raise", "k": i, "exc": "KeyboardInterrupt"})
+    problems = snapshot_check(cache, cwd0, True, False)
+    out = err = None
+    log = evlog.start(str(Path(cache).parent / "ev-resubmit.jsonl"))
+    try:
+        with Submitter(worker="debug", cache_root=cache) as sub:
+            res = sub(make_task("ok"), raise_errors=True)
+        out = None if res.outputs is None else res.outputs.out
+    except BaseException as e:  # noqa: BLE001
+        err = f"{type(e).__name__}: {str(e)[:120]}"
+    starts = sum(1 for e in evlog.read(log) if e["ev"] == "start")
+    if err is None and out != "T(a=x,b=[p])":
+        problems.append({"why": "resubmission after an interrupted run returned a wrong/empty result from the cache",
+                         "out": out, "body_starts_on_resubmission": starts})
+    res = {"case": case, "sig": env.sig_of(case), "nontrivial": r1["fired"] is not None,
+           "counters": {"interrupts_injected": int(r1["fired"] is not None), "runs": 2},
+           "obs": {"interrupted_run_error": r1["err"], "resubmission_out": out, "resubmission_err": err, "starts": starts}}
+    if r1["fired"] is None:
+        res.update(verdict="inconclusive", why="interrupt point not reached")
+    elif problems:
+        res.update(verdict="violated", witness={"problems": problems, "interrupt_before": f"{q}+{rel}", "calls": calls},
+                   mech="interrupt-saved-as-success" if all(p["why"].startswith("resubmission after") for p in problems) else None)
+    else:
+        res["verdict"] = "held"
+    return res
+
+
 def case_history(case, wctx):
     """ops: run / rerun on scenarios ok|fail in one cache root; model: set of complete successful identities"""
     cwd0 = os.getcwd()
@@ -239,6 +280,8 @@ def run(ctx):
     ctx.record_all(ctx.pmap("vp.props.c35:case_inject", inj, nproc=16, timeout=900 if quick else 3000))
     sp = [{"kind": k} for k in ("pre_hook_raises", "post_hook_raises", "unpicklable_return", "failing_body", "shell_ok")]
     ctx.record_all(ctx.pmap("vp.props.c35:case_special", sp, nproc=5, timeout=600))
+    ints = [{"at": ["_run"]}, {"at": ["_from_job"]}, {"at": ["post_run_task"]}, {"at": ["pre_run_task"]}]
+    ctx.record_all(ctx.pmap("vp.props.c35:case_interrupt", ints, nproc=4, timeout=600))
     hist = []
     for i in range(24 if quick else 600):
         ops = [{"scenario": rng.choice(["ok", "ok", "fail"]), "rerun": rng.random() < 0.3} for _ in range(rng.randint(2, 6))]
